@@ -131,6 +131,7 @@ func runC04(c *Collector, r *Rng, thorough bool) {
 		}
 	}
 	c04Refill(c)
+	c04Reuse(c)
 	// decoded messages: the alg consulted is the one in the protected bytes
 	n := 150
 	if thorough {
@@ -180,6 +181,92 @@ func runC04(c *Collector, r *Rng, thorough bool) {
 		default:
 			if !called {
 				c.Fail("C04/decoded-not-called", fmt.Sprintf("alg gate refused a matching message: %v", err), map[string]any{"data": hx(data), "kind": kind})
+			}
+		}
+	}
+}
+
+// c04Reuse: one message object signed, encoded, then re-signed under another algorithm (key rotation: the signature
+// is cleared, the alg parameter replaced): the bytes handed to the second signer, and the bytes emitted afterwards,
+// say the second signer's algorithm.
+func c04Reuse(c *Collector) {
+	algs := []cose.Algorithm{cose.AlgorithmES256, cose.AlgorithmES384, cose.AlgorithmEdDSA, cose.AlgorithmPS256, cose.Algorithm(-65537)}
+	for _, a := range algs {
+		for _, b := range algs {
+			if a == b {
+				continue
+			}
+			for _, how := range []string{"replace-entry", "replace-map", "delete-entry"} {
+				for _, structure := range []string{"COSE_Sign1", "COSE_Signature", "COSE_Countersignature"} {
+					rep := map[string]any{"first_alg": int64(a), "second_alg": int64(b), "how": how, "structure": structure}
+					h := cose.Headers{Protected: cose.ProtectedHeader{cose.HeaderLabelAlgorithm: a, int64(4): []byte("kid")}, Unprotected: cose.UnprotectedHeader{}}
+					sgA := &spySigner{alg: a, kind: SOk, sig: []byte{1, 1}}
+					sgB := &spySigner{alg: b, kind: SOk, sig: []byte{2, 2}}
+					parent := &cose.Sign1Message{Headers: cose.Headers{Protected: cose.ProtectedHeader{cose.HeaderLabelAlgorithm: cose.AlgorithmES256}}, Payload: []byte("pp"), Signature: []byte{9}}
+					var hp *cose.Headers
+					var sigp *[]byte
+					var sign func(sg *spySigner) error
+					var enc func() ([]byte, error)
+					idx := 1
+					switch structure {
+					case "COSE_Sign1":
+						m := &cose.Sign1Message{Headers: h, Payload: []byte("p")}
+						hp, sigp = &m.Headers, &m.Signature
+						sign = func(sg *spySigner) error { return m.Sign(nil, nil, sg) }
+						enc = m.MarshalCBOR
+					case "COSE_Signature":
+						sg := &cose.Signature{Headers: h}
+						hp, sigp = &sg.Headers, &sg.Signature
+						sign = func(s *spySigner) error { return sg.Sign(nil, s, []byte{0x40}, []byte("p"), nil) }
+						enc = sg.MarshalCBOR
+						idx = 2
+					default:
+						cs := &cose.Countersignature{Headers: h}
+						hp, sigp = &cs.Headers, &cs.Signature
+						sign = func(s *spySigner) error { return cs.Sign(nil, s, parent, nil) }
+						enc = cs.MarshalCBOR
+						idx = 2
+					}
+					if sign(sgA) != nil {
+						continue
+					}
+					if _, err := enc(); err != nil {
+						continue
+					}
+					*sigp = nil
+					switch how {
+					case "replace-entry":
+						hp.Protected[cose.HeaderLabelAlgorithm] = b
+					case "replace-map":
+						hp.Protected = cose.ProtectedHeader{cose.HeaderLabelAlgorithm: b}
+					default:
+						delete(hp.Protected, cose.HeaderLabelAlgorithm) // Sign inserts the signer's algorithm
+					}
+					err := sign(sgB)
+					c.Eval("reuse-after-encoding/"+structure+"/"+how, fmt.Sprint(a, b), true)
+					if err != nil {
+						c.Fail("C04/resign-refused", fmt.Sprintf("re-signing under alg %d after the message had been encoded under alg %d failed: %v", b, a, err), rep)
+						continue
+					}
+					if len(sgB.calls) != 1 {
+						continue
+					}
+					if wa, isInt, present := algInWire(tbsElement(sgB.calls[0], idx)); !present || !isInt || cose.Algorithm(wa) != b {
+						c.Fail("C04/signed-under-other-alg", fmt.Sprintf("a signer of algorithm %d was handed bytes whose protected bucket says alg %d (present=%v)", b, wa, present), rep)
+						continue
+					}
+					if out, err := enc(); err == nil {
+						w, perr := refParseFull(out)
+						if perr == nil && w.Maj == 6 {
+							w = w.Kids[0]
+						}
+						if perr == nil && len(w.Kids) > 0 {
+							if wa, isInt, present := algInWire(w.Kids[0].Ser()); !present || !isInt || cose.Algorithm(wa) != b {
+								c.Fail("C04/emitted-under-other-alg", fmt.Sprintf("the message signed under alg %d is emitted with a protected bucket that says alg %d (present=%v)", b, wa, present), rep)
+							}
+						}
+					}
+				}
 			}
 		}
 	}
